@@ -66,7 +66,8 @@ def run_modules(mods, tag):
 def c07(tier, hook=None):
     ck = hook["ck"] if hook else dx.Check("C07", tier)
     T = (hook or {}).get("transform") or (lambda ms: ms)
-    st, outp = dx.tlc_run("MC_Clone", "MC_Clone.cfg", "mc_clone", workers=1)
+    big = tier == "thorough" and not hook
+    st, outp = dx.tlc_run("MC_Clone", "MC_Clone_large.cfg" if big else "MC_Clone.cfg", "mc_clone_large" if big else "mc_clone", workers=2 if big else 1)
     if not st["ok"]:
         ck.violation({"kind": "model", "invariants": st["violated"]}, {"tlc_output": outp, "tail": open(outp).read()[-2000:]})
         return ck.finish() if not hook else None
@@ -88,7 +89,11 @@ def c07(tier, hook=None):
         for extra, bounds in ((("Copy",), None), (("Debug", "PartialEq"), None), ((), "shared_empty"), ((), "this_dd"), (("Copy",), "shared_dd")):
             for entry in (("attr", "derive") if tier == "thorough" else ("attr",)):
                 guises.append((sh, masks[-1], entry, False, extra, bounds))
-    mods = [(i, rf.clone_module(i, list(g[0]), g[2], g[1], g[3], g[4], g[5])) for i, g in enumerate(guises)]
+        # explicit discriminants on every variant (primitive repr), tuple and named guises
+        if len(sh) > 1:
+            for mask in (0, (1 << len(sh)) - 1):
+                guises.append((sh, mask, "attr" if mask else "derive", False, (), None, True))
+    mods = [(i, rf.clone_module(i, list(g[0]), g[2], g[1], g[3], g[4], g[5], disc=(len(g) > 6 and g[6]))) for i, g in enumerate(guises)]
     # seeded histories (stateful validation of longer runs)
     rnd = random.Random(dx.seed())
     nh = 40 if tier == "quick" else 2000
@@ -168,7 +173,8 @@ def c07(tier, hook=None):
 def c08(tier, hook=None):
     ck = hook["ck"] if hook else dx.Check("C08", tier)
     T = (hook or {}).get("transform") or (lambda ms: ms)
-    st, outp = dx.tlc_run("MC_Ops", "MC_Ops.cfg", "mc_ops", workers=2)
+    big = tier == "thorough" and not hook
+    st, outp = dx.tlc_run("MC_Ops", "MC_Ops_large.cfg" if big else "MC_Ops.cfg", "mc_ops_large" if big else "mc_ops", workers=2)
     if not st["ok"]:
         ck.violation({"kind": "model", "invariants": st["violated"]}, {"tlc_output": outp, "tail": open(outp).read()[-2000:]})
         return ck.finish() if not hook else None
@@ -176,7 +182,7 @@ def c08(tier, hook=None):
     plans = dx.parse_prints(open(outp).read(), "PLAN")
     ck.notes["model"] = {"module": "MC_Ops", "states": st.get("distinct"), "plans": len(plans)}
     guises = []
-    for n in range(0, 5):
+    for n in range(0, 7 if big else 5):
         kinds = ["unit"] if n == 0 else ["tuple", "named"]
         for kind in kinds:
             for entry in ("attr", "derive"):
@@ -188,7 +194,12 @@ def c08(tier, hook=None):
     for bounds in ("shared_empty", "this_dd", "this_empty", "field_empty"):
         for (n, kind) in ((2, "tuple"), (3, "named"), (1, "named")):
             guises.append((n, kind, "attr" if bounds != "this_dd" else "derive", False, bounds))
-    mods = [(i, rf.ops_module(i, g[0], g[1], g[2], generic=g[3], bounds=g[4])) for i, g in enumerate(guises)]
+    # `Self` in the struct's own generics: inline bound / where-clause (the derived reference forms must expand it)
+    for sb in ("inline", "where"):
+        for (n, kind) in ((1, "tuple"), (2, "named")):
+            for entry in ("attr", "derive"):
+                guises.append((n, kind, entry, True, None, sb))
+    mods = [(i, rf.ops_module(i, g[0], g[1], g[2], generic=g[3], bounds=g[4], selfbound=(g[5] if len(g) > 5 else None))) for i, g in enumerate(guises)]
     mods = T(mods)
     res, failed = run_modules(mods, "c08")
     events, meta = [], []
@@ -239,9 +250,9 @@ def impl_forms_of(resp, op):
             continue
         l = "r" if it["self_ty"].startswith("&") else "v"
         r = "r" if it["trait_args"].startswith("&") else "v"
-        if it["trait"] == "::core::ops::" + op:
+        if it["trait"].split("::")[-1] == op:
             binf.append([l, r])
-        elif it["trait"] == "::core::ops::" + op + "Assign":
+        elif it["trait"].split("::")[-1] == op + "Assign":
             asg.append(r)
     return binf, asg
 
@@ -261,11 +272,12 @@ def c09(tier, hook=None):
     for op in ops:
         for c in cfgs:
             for rhs_self in (True, False):
-                idx = len(mods)
-                src, req, d = rf.implop_module(idx, op, (c["bl"], c["br"]), rhs_self, c["want_bin"], c["want_assign"], c["base_is_assign"])
-                mods.append((idx, src))
-                descs.append(d)
-                reqs.append({"k": "expand", "id": idx, "entry": "attr", "attr": req["attr"], "item": req["item"]})
+                for generic in ((None, "where", "inline") if ((op in ops[:2] or tier == "thorough") and not (hook or {}).get("renamed")) else (None,)):
+                    idx = len(mods)
+                    src, req, d = rf.implop_module(idx, op, (c["bl"], c["br"]), rhs_self, c["want_bin"], c["want_assign"], c["base_is_assign"], generic=generic)
+                    mods.append((idx, src))
+                    descs.append(d)
+                    reqs.append({"k": "expand", "id": idx, "entry": "attr", "attr": req["attr"], "item": req["item"]})
     resps = dx.expand(reqs)
     mods = T(mods)
     res, failed = run_modules(mods, "c09")
@@ -292,7 +304,7 @@ def c09(tier, hook=None):
     for i in bad:
         e, m = events[i], meta[i]
         d = m["desc"]
-        sig = {"kind": e["ev"], "op": d["op"], "base": d["base"]["l"] + d["base"]["r"], "rhs_self": d["rhs_self"],
+        sig = {"kind": e["ev"], "op": d["op"], "base": d["base"]["l"] + d["base"]["r"], "rhs_self": d["rhs_self"], "generic": d.get("generic", ""),
                "requested": ("Op" if d["want_bin"] else "") + ("+OpAssign" if d["want_assign"] else ""), "base_is_assign": d["base_is_assign"],
                "form": (e.get("form") or {}).get("l", "") + (e.get("form") or {}).get("r", "")}
         ck.violation(sig, {"what": "impl-derived operator: forms / call count / clone count / result not explained by DxRun", "event": e,
@@ -350,6 +362,21 @@ def debug_descs(tier, rnd):
                 dbgs[rnd.randrange(n)] = "transparent"
             vs.append({"name": "V%d" % vi, "shape": shape, "fields": fields(n, shape, dbgs)})
         descs.append({"kind": "enum", "variants": vs})
+    # enum variants (tuple / named) with every subset of ignored fields: positions matter (a binding must not slide into an ignored slot)
+    for shape in ("tuple", "named"):
+        for n in (2, 3):
+            for dbgs in itertools.product(["none", "ignore"], repeat=n):
+                descs.append({"kind": "enum", "variants": [{"name": "U0", "shape": "unit", "fields": []},
+                                                          {"name": "V1", "shape": shape, "fields": fields(n, shape, dbgs)}]})
+    # structs generic over a possibly unsized last field (instantiated with sized types: every formatter flag must still reach it)
+    for shape in ("tuple", "named"):
+        for n in (1, 2, 3):
+            fs = fields(n, shape, ["none"] * n)
+            fs[-1]["gen"] = True
+            descs.append({"kind": "struct", "generic": True, "maybe_unsized": True, "variants": [{"name": "S%d" % len(descs), "shape": shape, "fields": fs}]})
+            fs2 = fields(n, shape, ["none"] * (n - 1) + ["transparent"])
+            fs2[-1]["gen"] = True
+            descs.append({"kind": "struct", "generic": True, "maybe_unsized": True, "variants": [{"name": "S%d" % len(descs), "shape": shape, "fields": fs2}]})
     # field-less enums (std prints the bare name)
     descs.append({"kind": "enum", "variants": [{"name": "Red", "shape": "unit", "fields": []}, {"name": "Green", "shape": "unit", "fields": []}]})
     return descs
@@ -475,28 +502,36 @@ def c11(tier, hook=None):
     cases = []
     for P in descs:
         for entry in ("attr", "derive"):
-            cases.append((P, entry))
+            cases.append((P, entry, None))
+    # explicit bound(...) arguments (on a non-generic type they cannot matter): the returned value must not change
+    brnd = random.Random(dx.seed() + 5)
+    for P in descs:
+        if brnd.random() < (0.25 if tier == "quick" else 1.0):
+            b = brnd.choice(["this_empty", "shared_empty", "this_dd", "field", "type_helper"])
+            if b == "type_helper" and (P["tv"] != "none" or P["kind"] == "enum"):
+                b = "this_empty"
+            cases.append((P, brnd.choice(["attr", "derive"]), b))
     reqs = []
     srcs = []
-    for i, (P, entry) in enumerate(cases):
-        src = rf.default_module(i, P, "attr")
-        m = re.search(r"#\[::derive_ex::derive_ex\(Default\)\] (.*)", src)
-        item = m.group(1)
+    for i, (P, entry, bnd) in enumerate(cases):
+        src = rf.default_module(i, P, "attr", bounds=bnd)
+        m = re.search(r"#\[::derive_ex::derive_ex\(([^\]]*)\)\] (.*)", src)
+        dargs, item = m.group(1), m.group(2)
         srcs.append(item)
         if entry == "attr":
-            reqs.append({"k": "expand", "id": i, "entry": "attr", "attr": "Default", "item": item})
+            reqs.append({"k": "expand", "id": i, "entry": "attr", "attr": dargs, "item": item})
         else:
-            reqs.append({"k": "expand", "id": i, "entry": "derive", "attr": "", "item": "#[derive_ex(Default)] " + item})
+            reqs.append({"k": "expand", "id": i, "entry": "derive", "attr": "", "item": "#[derive_ex(%s)] %s" % (dargs, item)})
     resps = dx.expand(reqs)
     mods, midx = [], {}
-    for i, ((P, entry), r) in enumerate(zip(cases, resps)):
+    for i, ((P, entry, bnd), r) in enumerate(zip(cases, resps)):
         rejected = r.get("class") == "compile_error" and not any(x["kind"] == "impl" for x in r["items"])
         if not rejected:
-            mods.append((i, rf.default_module(i, P, entry)))
+            mods.append((i, rf.default_module(i, P, entry, bounds=bnd)))
     mods = T(mods)
     res, failed = run_modules(mods, "c11")
     events, emeta = [], []
-    for i, ((P, entry), r) in enumerate(zip(cases, resps)):
+    for i, ((P, entry, bnd), r) in enumerate(zip(cases, resps)):
         rejected = r.get("class") == "compile_error" and not any(x["kind"] == "impl" for x in r["items"])
         if rejected:
             events.append({"ev": "default", "P": P, "rejected": True, "variant": 0, "prov": []})
@@ -505,7 +540,7 @@ def c11(tier, hook=None):
             events.append({"ev": "default", "P": P, "rejected": False, "variant": j["variant"], "prov": j["prov"]})
         else:
             events.append({"ev": "rustc_failed"})
-        emeta.append({"P": P, "entry": entry, "idx": i, "diags": failed.get(i)})
+        emeta.append({"P": P, "entry": entry, "idx": i, "diags": failed.get(i), "bounds": bnd})
     n, bad, jst = dx.tlc_judge("Trace_Run", "Trace_Run.cfg", events, "c11", chunk=max(200, -(-len(events) // 8)))
     ck.add_judge(n, jst)
     for i in bad:
@@ -513,9 +548,9 @@ def c11(tier, hook=None):
         P = m["P"]
         dvs = sorted(set(f["dv"] for v in P["variants"] for f in v["fields"]))
         sig = {"kind": e["ev"], "item": P["kind"], "tv": P["tv"], "marks": [v["dmark"] for v in P["variants"]], "vv": [v["vv"] for v in P["variants"]],
-               "rejected": e.get("rejected"), "dv": "+".join(dvs) if e["ev"] == "rustc_failed" else None,
+               "rejected": e.get("rejected"), "dv": "+".join(dvs) if e["ev"] == "rustc_failed" else None, "bounds": m.get("bounds"),
                "codes": ",".join(sorted(set(d.get("code") or "?" for d in (m.get("diags") or []))))}
-        ck.violation(sig, {"what": "default() differs from the documented value / rejection rule", "event": e, "source": rf.default_module(m["idx"], P, m["entry"]),
+        ck.violation(sig, {"what": "default() differs from the documented value / rejection rule", "event": e, "source": rf.default_module(m["idx"], P, m["entry"], bounds=m.get("bounds")),
                            "diags": m.get("diags")})
     ck.sample(next((e for e in events if e["ev"] == "default" and not e["rejected"] and len(e["prov"]) >= 2), None))
     ck.cov["evaluations"] = len(events)
@@ -565,6 +600,15 @@ def c18(tier, hook=None):
                 else:
                     item = "struct X(%s);" % ", ".join("u8" for j in range(n))
                 rej.append((n, traits, item))
+                # a field-level derive_ex entry for the trait must not turn a multi-field struct into an accepted one
+                if n >= 2 and shape != "unit":
+                    for pos in (0, n - 1):
+                        nested = "#[derive_ex(%s(bound()))] " % traits[0]
+                        if shape == "named":
+                            it2 = "struct X { %s }" % ", ".join((nested if j == pos else "") + "f%d: u8" % j for j in range(n))
+                        else:
+                            it2 = "struct X(%s);" % ", ".join((nested if j == pos else "") + "u8" for j in range(n))
+                        rej.append((n, traits, it2))
     rr = dx.expand([{"k": "expand", "id": i, "entry": "attr" if i % 2 == 0 else "derive", "attr": ", ".join(t) if i % 2 == 0 else "",
                      "item": it if i % 2 == 0 else "#[derive_ex(%s)] %s" % (", ".join(t), it)} for i, (n, t, it) in enumerate(rej)])
     for (nf, traits, item), r in zip(rej, rr):
